@@ -1,4 +1,4 @@
-From GV Require Import ME.Model ME.Monitors ME.Lists ME.Inv ME.InvC13 ME.InvC14.
+From GV Require Import ME.Model ME.Monitors ME.Lists ME.Inv ME.InvC13 ME.InvC14 ME.InvC14T.
 
 (* C14: every trace of the model, for every history (legal or not), satisfies the monitor. *)
 Theorem C14_holds : forall ids r d s0 outs0 ops,
@@ -6,6 +6,14 @@ Theorem C14_holds : forall ids r d s0 outs0 ops,
   C14_ok r d (observe s0) (run s0 ops) = true.
 Proof. exact C14_holds_proof. Qed.
 Print Assumptions C14_holds.
+
+(* C14T: a recovery window is ended only by the endpoint's own, latest recovery
+   timer, and not before that timer is due. *)
+Theorem C14T_holds : forall ids r d s0 outs0 ops,
+  NewMultiEndpoint ids r d = Some (s0, outs0) ->
+  C14T_ok r (observe s0) (run s0 ops) = true.
+Proof. exact C14T_holds_proof. Qed.
+Print Assumptions C14T_holds.
 
 (* State-level: the full invariant holds in every reachable state. *)
 Theorem invariant : forall ids r d s0 outs0 ops,
@@ -83,4 +91,43 @@ Proof. vm_compute; reflexivity. Qed.
 Example c14_bad_leaves_recovery_window :
   C14_ok 5 0 (mkObs 1 [mkOep 1 0 2 0; mkOep 2 1 0 (-1)] [(5, 0)] 0)
     [mkEvent (OpAdvance 1) [] (mkObs 2 [mkOep 1 0 2 0; mkOep 2 1 0 (-1)] [(5, 0)] 1)] = false.
+Proof. vm_compute; reflexivity. Qed.
+
+(* C14T non-vacuity.  Before: endpoint 1 is recovering, its latest timer is #1
+   (due 13); timer #0 (due 5) is a stale timer of an earlier window, already firing. *)
+
+(* sanity: the endpoint's own timer, due, ends the window *)
+Example c14t_good_trace :
+  C14T_ok 5 (mkObs 1 [mkOep 1 0 2 1] [(5, 3); (13, 2)] 13)
+    [mkEvent (OpEnd 1) [OStop 1 false] (mkObs 1 [mkOep 1 0 0 1] [(5, 3); (13, 3)] 13)] = true.
+Proof. vm_compute; reflexivity. Qed.
+
+(* the seeded bug: the stale timer #0 runs late and ends the NEW window *)
+Example c14t_bad_stale_timer_ends_window :
+  C14T_ok 5 (mkObs 1 [mkOep 1 0 2 1] [(5, 2); (13, 0)] 8)
+    [mkEvent (OpEnd 0) [OStop 1 true] (mkObs 1 [mkOep 1 0 0 1] [(5, 3); (13, 1)] 8)] = false.
+Proof. vm_compute; reflexivity. Qed.
+
+(* the own timer ends the window before it is due *)
+Example c14t_bad_window_cut_short :
+  C14T_ok 5 (mkObs 1 [mkOep 1 0 2 1] [(5, 3); (13, 2)] 8)
+    [mkEvent (OpEnd 1) [OStop 1 false] (mkObs 1 [mkOep 1 0 0 1] [(5, 3); (13, 3)] 8)] = false.
+Proof. vm_compute; reflexivity. Qed.
+
+(* a clock tick ends the window *)
+Example c14t_bad_tick_ends_window :
+  C14T_ok 5 (mkObs 1 [mkOep 1 0 2 1] [(5, 3); (13, 0)] 8)
+    [mkEvent (OpAdvance 5) [] (mkObs 1 [mkOep 1 0 0 1] [(5, 3); (13, 0)] 13)] = false.
+Proof. vm_compute; reflexivity. Qed.
+
+(* the concrete model history of c14_history also satisfies C14T (its last
+   event is a recovery window ended by its own timer #4 when due) *)
+Example c14t_history :
+  let ops := [OpAvail 2 true; OpAdvance 5; OpBegin 0; OpEnd 0; OpAvail 1 true; OpAdvance 3;
+              OpBegin 3; OpEnd 3; OpSet [3%N; 1%N]; OpAvail 1 false; OpBegin 7; OpSet [];
+              OpAdvance 5; OpBegin 4; OpEnd 4] in
+  match NewMultiEndpoint [1%N; 2%N; 3%N] 5 3 with
+  | Some (s0, _) => C14T_ok 5 (observe s0) (run s0 ops) = true
+  | None => False
+  end.
 Proof. vm_compute; reflexivity. Qed.
